@@ -527,6 +527,7 @@ def unit_for(repo, tg):
              views=tg.get("views"), error_ctors=tg.get("error_ctors"), compact_guards=bool(tg.get("compact_guards")), any_order=bool(tg.get("any_order")),
              rewrite=make_rewriter(tg["rel"], tg["normalise"]) if tg.get("normalise") else None)
     u.log_macros = tuple(tg.get("log_macros", ()))     # declared logging-only macros of the file
+    u.reindent_closures = bool(tg.get("reindent_closures"))    # (b0809) see emit_m in rs2lean.py
     return u
 
 
